@@ -99,15 +99,19 @@ def main():
         if rc != 0:
             print("patch does not apply:", out)
             return 2
-    # run the checks against the patched tree
+    # run the checks against the patched tree, from a snapshot of /verif (so that edits made meanwhile cannot disturb the run)
     det = {}
+    snap = "/tmp/verif-snap-%d" % os.getpid()
+    sh("rm -rf %s && mkdir -p %s && rsync -a --exclude .git --exclude evidence --exclude replays --exclude seeded /verif/ %s/" % (snap, snap, snap))
     for c in checks:
         t = time.time()
         env = dict(os.environ, VERIF_REPO=WT)
-        p = subprocess.run(["/verif/bin/check", c, "--tier", tier], env=env, stdout=subprocess.PIPE, stderr=subprocess.STDOUT, text=True)
+        p = subprocess.run([snap + "/bin/check", c, "--tier", tier], env=env, stdout=subprocess.PIPE, stderr=subprocess.STDOUT, text=True)
         last = [l for l in p.stdout.splitlines() if l.startswith(("VIOLATION", "OK ", "INFRA"))]
         kinds = sorted({l.split('"kind": "')[1].split('"')[0] for l in p.stdout.splitlines() if l.startswith("violation record") and '"kind": "' in l})
         det[c] = {"rc": p.returncode, "verdict": last[-1][:200] if last else p.stdout[-400:], "kinds": kinds, "wall_s": round(time.time() - t, 1)}
+    # keep the replay files of a detection next to the seed record
+    sh("mkdir -p /verif/replays && cp -r %s/replays/. /verif/replays/ 2>/dev/null; rm -rf %s" % (snap, snap))
     report["checks"] = det
     report["detected"] = any(v["rc"] == 1 for v in det.values())
     sh("git checkout -- . && git clean -fdq", cwd=WT)
